@@ -5,5 +5,5 @@ From Coq Require Import ExtrOcamlBasic ZArith QArith List Ascii.
 From SV Require Import Dbl LiteralModel LPFileModel.
 
 Extraction "../extract/C12/model.ml"
-  denote rat_intended rat_code lpf_value outcome_val nearest_doubleb overflowsb print_q dyadic_val
+  denote denote_sci rat_intended rat_code lpf_value outcome_val nearest_doubleb overflowsb underflowsb print_q dyadic_val
   lpf_image mps_image split_ranges mps_max_to_min drop_offset drop_unused used_mask.
